@@ -10,11 +10,18 @@ ENGINES = [
 PENDING = 'not yet claimed: machinery for this property is still being built (see DESIGN.md §10 build order)'
 NOT_APPLICABLE = {
     'C01': PENDING, 'C02': PENDING, 'C03': PENDING, 'C04': PENDING, 'C05': PENDING, 'C06': PENDING,
-    'C08': PENDING, 'C09': PENDING, 'C10': PENDING, 'C11': PENDING, 'C12': PENDING, 'C13': PENDING,
+    'C08': PENDING, 'C09': PENDING, 'C11': PENDING, 'C12': PENDING, 'C13': PENDING,
     'C16': PENDING, 'C18': PENDING, 'C19': PENDING,
     'C17': 'BLAKE3/SHA-256/Keccak-256 masm programs (800-3500 straight-line u32 ops) vs reference functions is a full bit-vector equivalence of compression functions; no function contract within reach of Verus/Z3 or Kani decides it (DESIGN §7 C17)',
 }
 META = {
+    'C10': {
+        'engine': 'E1 verus-extract',
+        'technique': 'Verus contracts on the real encoders (bytes written == grammar function enc(x)) and decoders (requires-free; for all x and tails: rest == enc(x) ++ tail ==> Ok(x), rest\' == tail) of the core data types, with induction lemmas on the byte codec',
+        'design_ref': '§7 C19/C10, §11',
+        'level_text': 'Deductive proof for all values: StackInputs and StackOutputs decode(encode(x)) == x, consuming exactly the bytes written (any trailing bytes untouched); encoders follow the documented grammar; HashFunction tags map back. ASTs, libraries and recompilation are NOT decided.',
+        'level_note': 'Partial claim: only the data-type half of the property is under contract. The AST / library codecs (assembly crate) are outside what was brought into reach (listed under not_decided in the evidence).',
+    },
     'C14': {
         'engine': 'E1 verus-extract',
         'technique': 'Verus frame postconditions on the real execute_decorator, ensure_trace_capacity (System / Stack / Process) and op_clk; bounded stand-in (real processor) for the relational parts: re-run determinism, capacity-hint and debug-assembly independence, step iterator forward/backward against the trace',
